@@ -51,6 +51,22 @@ type Listing struct {
 	V []Inner `hydraide:"value"`
 }
 
+// wire names that are the Go names of OTHER fields of the same model
+type Story struct {
+	ID       string `hydraide:"key"`
+	Headline string `hydraide:"Title"`
+	Title    string `hydraide:"Subtitle,omitempty"`
+	Subtitle string `hydraide:"headline,omitempty"`
+	Key      int64  `hydraide:"ID,omitempty"`
+}
+
+type Swapped struct {
+	A     string `hydraide:"B,omitempty"`
+	B     string `hydraide:"A,omitempty"`
+	ID    string `hydraide:"key"`
+	Value int64  `hydraide:"Key,omitempty"`
+}
+
 type Prefs struct {
 	Lang    string
 	Volume  int8 `hydraide:"omitempty"`
@@ -167,7 +183,7 @@ func namedLibrary() []namedType {
 			l = append(l, namedType{reflect.TypeOf(v), group, profile})
 		}
 	}
-	add("unique", false, Article{}, Gauge{}, Marker{}, Blob{}, Listing{})
+	add("unique", false, Article{}, Gauge{}, Marker{}, Blob{}, Listing{}, Story{}, Swapped{})
 	add("unique", true, Prefs{})
 	add("Box", false, Box[int64]{}, Box[string]{}, Box[[]string]{}, Box[time.Time]{}, Box[*Inner]{}, Box[Inner]{})
 	add("Bag", false, Bag[string]{}, Bag[int64]{}, Bag[map[string]int64]{})
